@@ -216,6 +216,8 @@ func (f wFetcher) FetchSourcePackage(ctx context.Context, sourceType string, u *
 	pp.Files = append([]TNode{}, p.Files...)
 	for i := range pp.Files {
 		pp.Files[i].Target = strings.ReplaceAll(pp.Files[i].Target, "<AROUND>", f.env.around)
+		// a fetcher knows the name of the (temporary) directory it was told to fill
+		pp.Files[i].Target = strings.ReplaceAll(pp.Files[i].Target, "<TMPBASE>", filepath.Base(targetDir))
 	}
 	if err := materialisePkg(pp, targetDir); err != nil {
 		return ret, fmt.Errorf("harness: %v", err)
